@@ -15,7 +15,7 @@ WARM = None
 MAX_PARALLEL = 16
 RULE = (
     "Hypothesis-generated sequences (length 2-10, with repetitions) of (kernel, --arch, options) drawn from the "
-    "shipped kernels plus variants with an unknown mnemonic, with a read-modify-write / memory-composed "
+    "shipped kernels plus variants with a form feed / vertical tab on one line, with an unknown mnemonic, with a read-modify-write / memory-composed "
     "instruction, and with stack-pointer traffic (write-back through sp; store, sp arithmetic, load), mixing ISAs, models and --fixed / -f / --ignore-unknown; each sequence runs in one fresh process "
     "(a) through osaca.osaca.run element by element and (b) library style with one MachineModel/ArchSemantics per "
     "architecture reused for all its kernels (how Kerncraft embeds OSACA). Oracle: every report equals, apart from "
@@ -65,9 +65,15 @@ def sequences(draw, kernels):
     for _ in range(draw(st.integers(1, 4))):
         name, isa, lines = draw(st.sampled_from(kernels))
         archs = env.X86_ARCHS if isa == "x86" else env.A64_ARCHS
-        var = draw(st.sampled_from([None, None, "unknown", "rmw", "composed", "stack", "stackwb"]))
+        var = draw(st.sampled_from([None, None, "unknown", "rmw", "composed", "stack", "stackwb", "odd-whitespace"]))
         body = list(lines)
-        if var:
+        if var == "odd-whitespace":
+            # a form feed / vertical tab next to the tokens of one line: whatever the tool makes of such a file
+            # (report or parse error), it has to be the same after other analyses as in a fresh process
+            pos = draw(st.integers(0, len(body) - 1))
+            ws = draw(st.sampled_from(["\f", "\v"]))
+            body[pos] = body[pos] + ws if draw(st.booleans()) else ws + body[pos]
+        elif var:
             pos = draw(st.integers(0, len(body)))
             body[pos:pos] = VARIANT[isa][var].split("\n")
         base.append({"kernel": name, "isa": isa, "variant": var, "code": "\n".join(body) + "\n",
